@@ -307,6 +307,11 @@ def run_property(modname: str, tier: str, seed: int, only: Optional[str] = None)
     mod = importlib.import_module(modname)
     pid = mod.PROPERTY
     known = load_known()
+    rdir = os.path.join(VERIF, "replays", pid)
+    if os.path.isdir(rdir) and not only:
+        for fn in os.listdir(rdir):
+            if fn.endswith(".json"):
+                os.unlink(os.path.join(rdir, fn))
     subs: Dict[str, SubCheck] = mod.SUBCHECKS
     total = Result()
     per_sub = {}
